@@ -11,9 +11,11 @@ RULE = (
     "scripted fault oracle (ok / error / disconnect-class error), time.time() of the pool replaced by a logical clock: "
     "all histories of length <= 3 over {execute, begin, commit, rollback, begin_nested, savepoint rollback, savepoint "
     "release} x a disconnect at DBAPI call 1..3 (a plain error for length <= 2), plus random histories of length 4..9 "
-    "with 1-2 faults anywhere, handle_error listener in {none, inert, disconnect->not, error->disconnect, "
-    "invalidate_pool_on_disconnect=False}, 0..2 further connections idle in the pool. Observed per operation: "
-    "exception class code, Connection.invalidated, transaction state, the DBAPI calls made (kind, connection id). "
+    "with 1-4 faults anywhere and chains of 0-2 handle_error listeners, every single listener behaviour {is_disconnect "
+    "untouched/True/False} x {invalidate_pool_on_disconnect untouched/True/False} x {returns None, returns an exception, "
+    "raises} on faults inside and outside a transaction, and 'repeated disconnect' histories (disconnect, failing "
+    "reconnect while already invalidated, recovery, ordinary error), 0..2 further connections idle in the pool. Observed per operation: "
+    "exception class code, Connection.invalidated, transaction state, current savepoint state, the DBAPI calls made (kind, connection id). "
     "non-trivial = a scripted fault position is reached (some operation fails with a DBAPIError)"
 )
 TRUSTED = [
@@ -25,8 +27,8 @@ TRUSTED = [
 ]
 ASSUMPTIONS = [
     "one Connection uses the pool; the other pool records are idle (QueuePool, FIFO, no pre_ping, no recycle timeout)",
-    "handle_error listeners only set ctx.is_disconnect / ctx.invalidate_pool_on_disconnect (they neither raise nor "
-    "use the connection)",
+    "handle_error listeners set ctx.is_disconnect / ctx.invalidate_pool_on_disconnect and return None, return an "
+    "exception or raise one; they do not use the connection",
     "Connection.close() is outside the operation alphabet (checkin/reset-on-return under faults is C26)",
 ]
 ANCHORS = [
@@ -68,23 +70,54 @@ def translate(repo, outdir):
     return []
 
 
+LEGACY = {0: [], 1: [[2, 0, 0]], 2: [[1, 0, 0]], 3: [[0, 2, 0]], 4: [[0, 0, 0]]}
+
+
+def _rnd_listeners(rng):
+    r = rng.random()
+    if r < 0.3:
+        return []
+    if r < 0.5:
+        return LEGACY[rng.choice([1, 2, 3, 4])]
+    return [[rng.randrange(3), rng.choice([0, 0, 1, 2]), rng.choice([0, 0, 1, 2])] for _ in range(rng.choice([1, 1, 2]))]
+
+
 def gen_cases(rng, tier):
     cases = []
     maxlen = 4 if tier == "thorough" else 3
     for n in range(1, maxlen + 1):
         for h in itertools.product(range(NOPS), repeat=n):
             for k in (1, 2, 3) if n > 1 else (1, 2):
-                cases.append({"in": [list(h), [[k, 2]], 0, 1], "kind": "exh%d-disc" % n})
+                cases.append({"in": [list(h), [[k, 2]], [], 1], "kind": "exh%d-disc" % n})
                 if n <= 2:
-                    cases.append({"in": [list(h), [[k, 1]], 0, 1], "kind": "exh%d-err" % n})
+                    cases.append({"in": [list(h), [[k, 1]], [], 1], "kind": "exh%d-err" % n})
+    # every single listener behaviour {is_disconnect untouched/True/False} x {invalidate_pool untouched/True/False} x
+    # {returns None, returns an exception, raises} on a fault inside and outside a transaction
+    for d in range(3):
+        for p in range(3):
+            for o in range(3):
+                for h, k in (([B, E, E, C, E], 1), ([E, E, C, E, E], 2), ([E, C, E, E], 2), ([E, S, E, SC, R, E], 3)):
+                    for kind in (1, 2):
+                        cases.append({"in": [h, [[k, kind]], [[d, p, o]], 1], "kind": "listener1"})
+    # repeated disconnects: a disconnect, a reconnect attempt that fails with a disconnect-class error while the
+    # Connection is already invalidated, recovery, then an ordinary error
+    for last in (E, C, R, S):
+        for idle in (0, 1, 2):
+            for pre in ([], [B], [E]):
+                h = pre + [E, E, R, E, E, last, E, R, E]
+                k0 = 1 if pre == [E] else 0
+                for k2 in (2, 1):
+                    fs = [[k0 + 2, 2], [k0 + 3, k2], [k0 + 6, 1]]
+                    cases.append({"in": [h, fs, [], idle], "kind": "repeated"})
+                    cases.append({"in": [h, fs, [[0, 0, 0]], idle], "kind": "repeated"})
     nrand = 20000 if tier == "thorough" else 700
     for _ in range(nrand):
-        n = rng.randint(4, 9)
+        n = rng.randint(4, 10)
         h = [rng.choice([E, E, E, B, C, R, R, S, SR, SC]) for _ in range(n)]
-        nf = rng.choice([1, 1, 2])
-        ks = rng.sample(range(1, n + 3), nf)
+        nf = rng.choice([1, 1, 2, 3, 4])
+        ks = rng.sample(range(1, n + 4), nf)
         fs = [[k, rng.choice([1, 2, 2])] for k in sorted(ks)]
-        cases.append({"in": [h, fs, rng.choice([0, 0, 1, 2, 3, 4]), rng.randint(0, 2)], "kind": "random"})
+        cases.append({"in": [h, fs, _rnd_listeners(rng), rng.randint(0, 2)], "kind": "random"})
     return cases
 
 
@@ -100,6 +133,10 @@ class FError(Exception):
 
 class FDisconnect(FError):
     pass
+
+
+class AppError(Exception):
+    """the exception type handle_error listeners of the harness return / raise"""
 
 
 class _World:
@@ -219,16 +256,21 @@ def impl(c):
             warnings.simplefilter("ignore")
             eng = sa.create_engine("sqlite://", module=_dbapi(w), _initialize=False, poolclass=sapool.QueuePool, pool_size=5)
             eng.dialect.is_disconnect = lambda ex, conn, cur: isinstance(ex, FDisconnect)
-            if listener:
-
-                @event.listens_for(eng, "handle_error")
+            def _mk(sd, sp, out):
                 def _h(ctx):
-                    if listener == 1 and ctx.is_disconnect:
-                        ctx.is_disconnect = False
-                    if listener == 2 and not ctx.is_disconnect:
-                        ctx.is_disconnect = True
-                    if listener == 3:
-                        ctx.invalidate_pool_on_disconnect = False
+                    if sd:
+                        ctx.is_disconnect = sd == 1
+                    if sp:
+                        ctx.invalidate_pool_on_disconnect = sp == 1
+                    if out == 1:
+                        return AppError("returned by a listener")
+                    if out == 2:
+                        raise AppError("raised by a listener")
+
+                return _h
+
+            for sd, sp, out in listener:
+                event.listen(eng, "handle_error", _mk(sd, sp, out))
 
             warm = [eng.connect() for _ in range(idle + 1)]
             for x in warm:
@@ -265,8 +307,19 @@ def impl(c):
                     code = 2 if ex.connection_invalidated else 1
                 except exc.InvalidRequestError:
                     code = 5
+                except AppError:
+                    code = 6
                 t = conn.get_transaction()
-                out.append([code, int(conn.invalidated), 0 if t is None else (1 if t.is_active else 2), [list(x) for x in w.log[start:]]])
+                nt = conn.get_nested_transaction()
+                out.append(
+                    [
+                        code,
+                        int(conn.invalidated),
+                        0 if t is None else (1 if t.is_active else 2),
+                        0 if nt is None else (1 if nt.is_active else 2),
+                        [list(x) for x in w.log[start:]],
+                    ]
+                )
             w.faults = {}
             try:
                 conn.close()
@@ -279,6 +332,22 @@ def impl(c):
 
 
 # ------------------------------------------------------------------ the property, clause by clause
+def _chain(listeners, d0):
+    """what the listeners SAY: the last value assigned to each flag by the listeners that ran (a raising listener
+    is the last one to run), whether an exception of theirs replaces the error"""
+    d, ip, exn = d0, True, False
+    for sd, sp, out in listeners:
+        if sd:
+            d = sd == 1
+        if sp:
+            ip = sp == 1
+        if out:
+            exn = True
+        if out == 2:
+            break
+    return d, ip, exn
+
+
 def oracle(c, obs):
     hist, faults, listener, idle = c["in"]
     fk = {k: f for k, f in faults}
@@ -287,7 +356,9 @@ def oracle(c, obs):
     prev_inval, prev_txn = 0, 0
     barrier = None  # connections with id < barrier were opened before a pool-invalidating failure
     blocked = False  # a disconnect hit while a transaction was in progress and no rollback() since
-    for i, (op, (code, inval, txn, calls)) in enumerate(zip(hist, obs)):
+    pass_exn = _chain(listener, False)[2]
+    stale = None  # op index of a rollback() that left a savepoint of the rolled-back transaction current
+    for i, (op, (code, inval, txn, nst, calls)) in enumerate(zip(hist, obs)):
         # count only fault-consulting calls (close is logged but does not consult the oracle)
         idx = ncall
         fired = 0
@@ -296,14 +367,24 @@ def oracle(c, obs):
                 idx += 1
                 if fk.get(idx):
                     fired = fk[idx]
-        if fired == 2 and listener != 1 and not (code == 2 and inval):
-            return "op %d: a DBAPI call failed with an error the dialect classifies as a disconnect, result code %d, invalidated=%d" % (i, code, inval)
-        if fired == 1 and listener != 2 and code == 2:
-            return "op %d: an error NOT classified as a disconnect was reported with connection_invalidated" % i
+        disc = ip = None
+        if fired:
+            disc, ip, exn = _chain(listener, fired == 2)
+            if disc and not (inval and code in (2, 6)):
+                return "op %d: a DBAPI call failed with an error classified as a disconnect (dialect: %s, listeners: %s), result code %d, invalidated=%d" % (
+                    i, fired == 2, listener, code, inval)
+            if not disc and code == 2:
+                return "op %d: an error NOT classified as a disconnect (dialect: %s, listeners: %s) was reported with connection_invalidated" % (i, fired == 2, listener)
+            if not disc and not prev_inval:
+                if inval or any(kind in (0, 4) for kind, cid in calls):
+                    return "op %d: an error not classified as a disconnect (dialect: %s, listeners: %s) closed/opened DBAPI connections or invalidated the connection: %s" % (
+                        i, fired == 2, listener, calls)
+            if code == 6 and not exn or (exn and code != 6):
+                return "op %d: listeners %s, exception code %d" % (i, listener, code)
         if blocked and op != R:
             if calls:
                 return "op %d (%d) reached the DBAPI %s although a disconnect hit an open transaction and rollback() was not called" % (i, op, calls)
-            if op in (E, B, C, S) and code not in (3, 5):
+            if op in (E, B, C, S) and code not in ((3, 5, 6) if pass_exn else (3, 5)):
                 return "op %d (%d) returned code %d instead of raising until rollback()" % (i, op, code)
             if not inval:
                 return "op %d: connection no longer invalidated without rollback()" % i
@@ -313,30 +394,33 @@ def oracle(c, obs):
                     return "op %d uses DBAPI connection %d, opened before the disconnect (connections < %d existed then)" % (i, cid, barrier)
         if code == 2 and not inval:
             return "op %d raised a disconnect-classified error but Connection.invalidated is False" % i
-        if code == 1 and not prev_inval:
-            if inval or any(kind in (0, 4) for kind, cid in calls):
-                return "op %d: a non-disconnect error closed/opened DBAPI connections or invalidated the connection: %s" % (i, calls)
         if op == E and prev_inval and prev_txn == 0 and not fired:
             if code != 0 or inval:
-                return "op %d: execute on an invalidated connection without pending transaction did not reconnect (code %d)" % (i, code)
+                return "op %d: execute on an invalidated connection without pending transaction did not reconnect (code %d)%s" % (
+                    i, code, "" if stale is None else " [stale savepoint: the failed rollback() at op %d left a savepoint of the rolled-back transaction current]" % stale)
         if op == R and prev_inval:
             if calls or code != 0 or txn != 0:
                 return "op %d: rollback() on the invalidated connection: code %d, calls %s, transaction state %d" % (i, code, calls, txn)
         for kind, cid in calls:
             maxid = max(maxid, cid)
-        if code == 2:
-            if not prev_inval and listener != 3:
+        if disc:
+            if not prev_inval and ip:
                 barrier = maxid + 1
             if txn != 0:
                 blocked = True
         if op == R:
             blocked = False
+            stale = i if nst else None
+        elif not nst:
+            stale = None
         ncall = idx
         prev_inval, prev_txn = inval, txn
     return None
 
 
 def match_finding(c, what):
+    if "[stale savepoint:" in what:
+        return "C27-failed-rollback-leaves-savepoint"
     return None
 
 
